@@ -9,11 +9,13 @@ P = {
     "id": "C12",
     "coq_targets": ["Properties/C12.vo", "Run/Eval_C12.vo"],
     "theorems_module": "Properties.C12",
-    "theorems": ["C12_errors_is_as_leaves", "C12_kind_table", "C12_same_status", "C12_F2_refuted",
+    "theorems": ["C12_errors_is_as_leaves", "C12_kind_table", "C12_same_status", "C12_translators_meet_spec", "C12_F2_refuted",
                  "C12_never_success", "C12_never_success_stack", "C12_success_override_possible",
-                 "C12_body_only_if_verbose", "C12_redirect_has_location", "C12_redirect_handler_response",
-                 "C12_redirect_handler_code_is_3xx", "C12_success_redirect_not_creatable", "C12_www_authenticate_status", "C12_www_authenticate_challenge", "C12_www_authenticate_has_header", "C12_www_authenticate_has_header_fixed", "C12_fix_only_adds_challenge", "C12_F1_refuted",
-                 "C12_F1_header_never_written", "C12_panic_response", "C12_nonvacuous"],
+                 "C12_body_only_if_verbose", "C12_redirect_has_location",
+                 "C12_entry_points_meet_spec", "C12_entry_points_inside_guards", "C12_handlers_never_swallow",
+                 "C12_www_authenticate_challenge", "C12_redirect_handler_code_is_3xx",
+                 "C12_F1_refuted", "C12_F1_header_never_written", "C12_F4_refuted",
+                 "C12_stack_extends_model", "C12_eval_sound", "C12_nonvacuous", "C12_nonvacuous_entry"],
     "streams": [{
         "name": "translate", "pkg": "./internal/zzverif/c12", "test": "TestVerifC12",
         "overlay": {
